@@ -131,7 +131,11 @@ GroupOps(sc) ==
     IF sc.kind # "frame" \/ Len(sc.cols) < 2 THEN {} ELSE
     LET key == sc.cols[Len(sc.cols)]
         rest == Without(sc.cols, {key})
-    IN {<<[op |-> "groupby", by |-> <<key>>, f |-> f, sort |-> TRUE], [sc EXCEPT !.cols = rest, !.ord = TRUE, !.idx = TRUE]>> :
+    IN (IF Focus = "knobs"        \* NULL keys kept as a group: a parameter of the query, exercised under every knob value
+        THEN {<<[op |-> "groupby", by |-> <<key>>, f |-> f, sort |-> TRUE, dropna |-> FALSE], [sc EXCEPT !.cols = rest, !.ord = TRUE, !.idx = TRUE]>> : f \in {"sum", "var", "mean"}}
+        ELSE {})
+       \cup
+       {<<[op |-> "groupby", by |-> <<key>>, f |-> f, sort |-> TRUE], [sc EXCEPT !.cols = rest, !.ord = TRUE, !.idx = TRUE]>> :
             f \in {"sum", "count", "min", "max", "mean", "var"} \cup (IF sc.ord THEN {"first"} ELSE {})}   \* first needs a defined row order
        \cup {<<[op |-> "groupby", by |-> <<sc.cols[1]>>, f |-> "sum", sort |-> TRUE], [sc EXCEPT !.cols = Without(sc.cols, {sc.cols[1]}), !.ord = TRUE, !.idx = TRUE]>>}
 
@@ -217,6 +221,25 @@ Apply == /\ depth < MaxOps
          /\ depth' = depth + 1
 Next == Apply
 Spec == Init /\ [][Next]_vars
+
+(***************************************************************************)
+(* Execution knobs (C10).  -1 stands for "not given" (the default), 0 for   *)
+(* False; the harness passes every other value as the keyword argument.     *)
+(***************************************************************************)
+KnobGrid(kind) ==
+    CASE kind = "reduce"  -> {[split_every |-> s] : s \in {-1, 0, 2, 3, 8}}
+      [] kind = "groupby" -> {[split_every |-> s, split_out |-> o, shuffle_method |-> m] :
+                                 s \in {-1, 2, 3}, o \in {-1, 1, 2, 3, 99}, m \in {"", "tasks", "disk"}}      \* 99: split_out=True
+      [] kind = "merge"   -> {[broadcast |-> b, shuffle_method |-> m, npartitions |-> n] :
+                                 b \in {-1, 0, 1, 50, 200}, m \in {"", "tasks", "disk"}, n \in {-1, 1, 3}}     \* 1: True, 50 / 200: bias 0.5 / 2.0
+      [] kind = "sort"    -> {[npartitions |-> n, upsample |-> u, shuffle_method |-> m] :
+                                 n \in {-1, 1, 2, 5}, u \in {-1, 50, 400}, m \in {"", "tasks", "disk"}}
+      [] kind = "shuffle" -> {[shuffle_method |-> m, max_branch |-> b] : m \in {"tasks", "disk"}, b \in {-1, 2, 3, 8}}
+      [] kind = "dedup"   -> {[split_every |-> s, split_out |-> o, shuffle_method |-> m] :
+                                 s \in {-1, 2}, o \in {-1, 1, 2, 99}, m \in {"", "tasks", "disk"}}
+      [] OTHER -> {}
+KnobKinds == {"reduce", "groupby", "merge", "sort", "shuffle", "dedup"}
+EmitKnobs(file) == ndJsonSerialize(file, SetToSeq(UNION {{[kind |-> k, knobs |-> g] : g \in KnobGrid(k)} : k \in KnobKinds}))
 
 (***************************************************************************)
 (* Partition layouts (C02): every way of cutting n rows into at most       *)
